@@ -91,7 +91,7 @@ func structFieldValue(st *types.Struct, i int, index []int) value {
 }
 
 func initReflectModel(i *interpreter) {
-	for _, name := range []string{"Name", "FieldByNameFunc", "AssignableTo", "PkgPath", "Len", "Comparable", "FieldByName"} {
+	for _, name := range []string{"Name", "FieldByNameFunc", "AssignableTo", "PkgPath", "Len", "Comparable", "FieldByName", "ConvertibleTo"} {
 		i.rtypeMethods[name] = newMethod(i.reflectPackage, rtypeType, name)
 	}
 }
@@ -268,6 +268,131 @@ func init() {
 				}
 			}
 			return tuple{mkRV(t, r), iface{}}, true
+		},
+		"(reflect.Value).Cap": func(fr *frame, a []value) (value, bool) {
+			t, r := mustValid(a[0], "reflect.Value.Cap")
+			switch x := rvGet(t, r).(type) {
+			case []value:
+				return cap(x), true
+			case array:
+				return len(x), true
+			}
+			reflectPanic("reflect: call of reflect.Value.Cap on " + kindName(t) + " Value")
+			return nil, true
+		},
+		"(reflect.Value).Slice": func(fr *frame, a []value) (value, bool) {
+			t, r := mustValid(a[0], "reflect.Value.Slice")
+			i, j := int(concInt(a[1], "Slice")), int(concInt(a[2], "Slice"))
+			switch x := rvGet(t, r).(type) {
+			case []value:
+				if i < 0 || j < i || j > cap(x) {
+					reflectPanic("reflect.Value.Slice: slice index out of bounds")
+				}
+				return mkRV(t, &rvalue{v: x[i:j], ro: r.ro}), true
+			case string:
+				if i < 0 || j < i || j > len(x) {
+					reflectPanic("reflect.Value.Slice: string slice index out of bounds")
+				}
+				return mkRV(t, &rvalue{v: x[i:j], ro: r.ro}), true
+			}
+			reflectPanic("reflect: call of reflect.Value.Slice on " + kindName(t) + " Value")
+			return nil, true
+		},
+		"(reflect.Value).SetLen": func(fr *frame, a []value) (value, bool) {
+			t, r := mustValid(a[0], "reflect.Value.SetLen")
+			if r.addr == nil || r.ro {
+				reflectPanic("reflect: reflect.Value.SetLen using unaddressable value")
+			}
+			x, ok := rvGet(t, r).([]value)
+			n := int(concInt(a[1], "SetLen"))
+			if !ok {
+				reflectPanic("reflect: call of reflect.Value.SetLen on " + kindName(t) + " Value")
+			}
+			if n < 0 || n > cap(x) {
+				reflectPanic("reflect: slice length out of range in SetLen")
+			}
+			store(t, r.addr, x[:n])
+			return nil, true
+		},
+		"(reflect.Value).SetZero": func(fr *frame, a []value) (value, bool) {
+			t, r := mustValid(a[0], "reflect.Value.SetZero")
+			if r.addr == nil {
+				reflectPanic("reflect: reflect.Value.SetZero using unaddressable value")
+			}
+			if r.ro {
+				reflectPanic("reflect: reflect.Value.SetZero using value obtained using unexported field")
+			}
+			store(t, r.addr, zero(t))
+			return nil, true
+		},
+		"(reflect.Value).IsZero": func(fr *frame, a []value) (value, bool) {
+			t, r := mustValid(a[0], "reflect.Value.IsZero")
+			v := rvGet(t, r)
+			switch v.(type) {
+			case []value:
+				return v.([]value) == nil, true
+			case *omap:
+				return v.(*omap) == nil, true
+			}
+			return truth(symEquals(t, v, zero(t))), true
+		},
+		"(reflect.Value).CanConvert": func(fr *frame, a []value) (value, bool) {
+			t, _ := mustValid(a[0], "reflect.Value.CanConvert")
+			return types.ConvertibleTo(t, a[1].(iface).v.(rtype).t), true
+		},
+		"(reflect.Value).Convert": func(fr *frame, a []value) (value, bool) {
+			t, r := mustValid(a[0], "reflect.Value.Convert")
+			dst := a[1].(iface).v.(rtype).t
+			if !types.ConvertibleTo(t, dst) {
+				reflectPanic("reflect.Value.Convert: value of type " + typeName(t) + " cannot be converted to type " + typeName(dst))
+			}
+			v := rvGet(t, r)
+			_, sb := t.Underlying().(*types.Basic)
+			_, db := dst.Underlying().(*types.Basic)
+			if sb && db {
+				return mkRV(dst, &rvalue{v: conv(dst, t, v), ro: r.ro}), true
+			}
+			if _, isIface := dst.Underlying().(*types.Interface); isIface {
+				if _, srcIface := t.Underlying().(*types.Interface); !srcIface {
+					v = iface{t: t, v: v}
+				}
+				return mkRV(dst, &rvalue{v: v, ro: r.ro}), true
+			}
+			return mkRV(dst, &rvalue{v: v, ro: r.ro}), true
+		},
+		"(reflect.rtype).ConvertibleTo": func(fr *frame, a []value) (value, bool) {
+			return types.ConvertibleTo(a[0].(rtype).t, a[1].(iface).v.(rtype).t), true
+		},
+		"reflect.Zero": func(fr *frame, a []value) (value, bool) {
+			t := a[0].(iface).v.(rtype).t
+			return mkRV(t, &rvalue{v: zero(t)}), true
+		},
+		"reflect.New": func(fr *frame, a []value) (value, bool) {
+			t := a[0].(iface).v.(rtype).t
+			cell := zero(t)
+			return mkRV(types.NewPointer(t), &rvalue{v: &cell}), true
+		},
+		"reflect.Append": func(fr *frame, a []value) (value, bool) {
+			t, r := mustValid(a[0], "reflect.Append")
+			x, ok := rvGet(t, r).([]value)
+			if !ok {
+				reflectPanic("reflect.Append: not a slice")
+			}
+			for _, e := range a[1].([]value) {
+				et, er := mustValid(e, "reflect.Append")
+				x = append(x, rvGet(et, er))
+			}
+			return mkRV(t, &rvalue{v: x}), true
+		},
+		"reflect.Copy": func(fr *frame, a []value) (value, bool) {
+			dt, dr := mustValid(a[0], "reflect.Copy")
+			st, sr := mustValid(a[1], "reflect.Copy")
+			d, ok1 := rvGet(dt, dr).([]value)
+			sv, ok2 := rvGet(st, sr).([]value)
+			if !ok1 || !ok2 {
+				reflectPanic("reflect.Copy: not slices")
+			}
+			return copy(d, sv), true
 		},
 		"(reflect.Value).CanSet": func(fr *frame, a []value) (value, bool) {
 			_, r, ok := rvParts(a[0])
